@@ -76,6 +76,7 @@ type Dispatcher struct {
 	Default     *ssa.BasicBlock
 	Handlers    map[string]*ssa.Function // node type name -> handler
 	HandlerCall map[string]*ssa.Call
+	Inline      map[string]TSArm // node types whose arm does its work in the dispatcher itself
 }
 
 // findDispatcher: a function reachable from roots with a type switch over at
@@ -96,7 +97,7 @@ func (c *Ctx) findDispatcher(key string, roots ...*ssa.Function) *Dispatcher {
 				}
 			}
 			if n >= 5 && (best == nil || n > len(best.Arms)) {
-				best = &Dispatcher{Fn: f, Param: p, Arms: arms, Default: d, Handlers: map[string]*ssa.Function{}, HandlerCall: map[string]*ssa.Call{}}
+				best = &Dispatcher{Fn: f, Param: p, Arms: arms, Default: d, Handlers: map[string]*ssa.Function{}, HandlerCall: map[string]*ssa.Call{}, Inline: map[string]TSArm{}}
 			}
 		}
 	}
@@ -139,6 +140,9 @@ func (c *Ctx) findDispatcher(key string, roots ...*ssa.Function) *Dispatcher {
 				best.HandlerCall[nt.Obj().Name()] = call
 				break
 			}
+		}
+		if best.Handlers[nt.Obj().Name()] == nil {
+			best.Inline[nt.Obj().Name()] = a
 		}
 	}
 	return best
